@@ -111,14 +111,14 @@ def id_pairs(w):
     return out
 
 
-def run_case(R, level, op, fault, k, delta, step_seed, prime, err=None):
+def run_case(R, level, op, fault, k, delta, step_seed, prime, err=None, base=1_700_000_000.0):
     import random
 
     if level == "v1" and op in ("bulkget", "bulkwalk", "bulktable"):
         return
-    case = {"level": level, "op": op, "fault": fault, "k": k, "delta": delta, "step_seed": step_seed, "prime": prime, "err": err}
+    case = {"level": level, "op": op, "fault": fault, "k": k, "delta": delta, "step_seed": step_seed, "prime": prime, "err": err, "base": base}
     agent_clock = env.Clock()
-    env.CLOCK.freeze(1_700_000_000.0)
+    env.CLOCK.freeze(base)
     w = World(level, DB, clock=agent_clock)
     if prime:
         w.prime()
@@ -203,7 +203,7 @@ def run_case(R, level, op, fault, k, delta, step_seed, prime, err=None):
     finally:
         reads = env.CLOCK.reads - reads0
         env.CLOCK.freeze(1_700_000_000.0)
-    fp = ("c07", level, op, fault, k, None if delta is None else (tuple(delta) if isinstance(delta, (list, tuple)) else (delta > 0, abs(delta) > 2)), step_seed is not None and step_seed % 13, prime, err)
+    fp = ("c07", level, op, fault, k, None if delta is None else (tuple(delta) if isinstance(delta, (list, tuple)) else (delta > 0, abs(delta) > 2)), step_seed is not None and step_seed % 13, prime, err, base)
     R.case(fp, fault is None or state["applied"], sample={**case, "clock_reads": reads, "outcome": kind if kind != "exc" else repr(val)} if R.evaluations % 397 == 0 else None)
     R.mon["clock_reads_during_ops"] += reads
     pairs = id_pairs(w)
@@ -276,15 +276,17 @@ def run(R):
         step_seed = rng.randint(0, 10**9) if rng.random() < 0.8 else None
         prime = rng.random() < 0.5
         err = rng.choice((None, None, 2, 5, 1, 17, 18, 19, 255, -1, 2**31 - 1))
+        # where the clock STANDS matters too: ids around and beyond 2^31 (2038), 2^32
+        base = rng.choice((1_700_000_000.0,) * 5 + (2.0**31 - 2, 2.0**31 + 5, 2.0**32 - 3, 2.0**32 + 10, 5.0))
         if level in rig.AUTH_LEVELS and r < 0.12:
-            run_case(R, level, op, "reboot", 0, None, step_seed, True)
+            run_case(R, level, op, "reboot", 0, None, step_seed, True, base=base)
         elif r < 0.45:
-            run_case(R, level, op, None, 0, None, step_seed, prime)
+            run_case(R, level, op, None, 0, None, step_seed, prime, base=base)
         elif r < 0.8:
             delta = rng.choice((1, -1, 2**31, -(2**31), rng.randint(-(2**31), 2**31) or 7, ("abs", 0), ("abs", 0), ("abs", 1), ("abs", -1), ("abs", 2**31 - 1)))
-            run_case(R, level, op, "rid", rng.choice((0, 0, 1, 2)), delta, step_seed, True, err)
+            run_case(R, level, op, "rid", rng.choice((0, 0, 1, 2)), delta, step_seed, True, err, base=base)
         elif v3:
-            run_case(R, level, op, "disco", 0, rng.choice((1, -1, 12345)), step_seed, False)
+            run_case(R, level, op, "disco", 0, rng.choice((1, -1, 12345, 2**31, -(2**31))), step_seed, False, base=base)
         else:
             run_case(R, level, op, rng.choice(("community", "version")), rng.choice((0, 0, 1)), rng.choice((1, -1)), step_seed, True, err)
     if R.shard == 0:
@@ -299,5 +301,5 @@ def run(R):
 
 def replay(R, v):
     c = v["case"]
-    run_case(R, c["level"], c["op"], c["fault"], c["k"], c["delta"], c["step_seed"], c["prime"], c.get("err"))
+    run_case(R, c["level"], c["op"], c["fault"], c["k"], c["delta"], c["step_seed"], c["prime"], c.get("err"), c.get("base", 1_700_000_000.0))
     budget.MONITOR.off()
